@@ -1,5 +1,6 @@
 """Per-property job lists (bounds per tier) and the texts that go into the evidence."""
 from props_front import POOL, c09_shapes
+import props_pipe
 
 COMMON_ASSUME = [
     'input strings are well-formed UTF-8 (Rust &str invariant), constrained by the exact RFC 3629 formula',
@@ -109,6 +110,22 @@ def jobs_c01(tier, seed):
     return jobs_c01_front(tier, seed)
 
 
+def jobs_pipe(prop):
+    def f(tier, seed):
+        jobs = props_pipe.struct_jobs(prop, tier, seed)
+        if prop in ('C04', 'C01'):
+            jobs += props_pipe.junk_jobs(prop, tier, seed)
+        return jobs
+    return f
+
+
+PIPE_ASSUME = COMMON_ASSUME + [
+    'documents are the templates of mirsym/props_pipe.py (STRUCT / JUNK): concrete tag structure, symbolic hole bytes of the stated classes; '
+    'delimiters < >, tag names t / m, target set {x}, current time 2024-01-01T00:00:00Z, offset +00:00 unless the job says otherwise',
+    'chrono is replaced by mirsym/chrono_stub.py (strict strftime parse + instant comparison), pinned to the real chrono by the native differential',
+    'the oracle (templates.evaluate) decides readiness and removable extents from the template structure, following C05/C06/C10/C11 statements',
+]
+
 PROPS = {
     'C07': dict(
         jobs=jobs_c07, tv=('front',),
@@ -140,4 +157,17 @@ PROPS = {
                     'replace_range, explicit panic!) or the step budget: tokenize, element_parser::parse on every tag token and parser::parse '
                     'on every valid UTF-8 source of N bytes for the delimiter pool and for symbolic delimiters; tag bodies U(N).',
         assumptions=COMMON_ASSUME),
+    'C02': dict(jobs=jobs_pipe('C02'), tv=('front', 'pipe'), assumptions=PIPE_ASSUME,
+                explanation='Real chiritori::clean (registry, strategy order, formatter set as wired in chiritori.rs) on documents with symbolic holes. '
+                            'Assertion (one z3 query per path, alignment by dynamic programming over input/output bytes): the output is obtainable '
+                            'from the input by deleting only bytes inside ready extents and blanks.'),
+    'C03': dict(jobs=jobs_pipe('C03'), tv=('front', 'pipe'), assumptions=PIPE_ASSUME,
+                explanation='Same exploration as C02; assertion: the output is obtainable from the input *minus the ready extents* by deleting blanks only '
+                            '(so no byte of a ready element survives and the non-blank text is exactly the input minus the extents).'),
+    'C04': dict(jobs=jobs_pipe('C04'), tv=('front', 'pipe'), assumptions=PIPE_ASSUME,
+                explanation='Same exploration plus junk templates (arbitrary UTF-8 holes, empty target set, current time before every `to`): whenever the '
+                            'reference evaluation finds no ready element the output buffer equals the input byte for byte.'),
+    'C14': dict(jobs=jobs_pipe('C14'), tv=('front', 'pipe'), assumptions=PIPE_ASSUME,
+                explanation='Same exploration; assertion: alignment in which a blank may only be deleted if it is not strictly between the first and last '
+                            'non-blank byte of its stretch (maximal run without removed bytes; per line inside an unwrapped body).'),
 }
